@@ -186,6 +186,57 @@ def main():
                              % json.dumps(d)[:1100], {"case": d})
     ck.add_group("parent_timeout_cancels_child", canc, canc, [])
 
+    # ---------------------------------------------------------------- 2b. every callback Task gets a token of its own: two in a row, and a retried one
+    seq_runs = 0
+    for shape in ("two_in_a_row", "retried"):
+        def cb(name, nxt, retry=False):
+            st = {"Type": "Task", "Resource": "arn:aws:states:::rpcmessage:invoke.waitForTaskToken", "TimeoutSeconds": 30, "ResultPath": "$." + name,
+                  "Parameters": {"FunctionName": sim.FN + "f", "Payload": {"step": name, "token.$": "$$.Task.Token"}}}
+            if retry:
+                st["Retry"] = [{"ErrorEquals": ["Again"], "IntervalSeconds": 1, "MaxAttempts": 2, "BackoffRate": 1}]
+            st.update({"End": True} if nxt is None else {"Next": nxt})
+            return st
+        defn = ({"StartAt": "A", "States": {"A": cb("A", "B"), "B": cb("B", None)}} if shape == "two_in_a_row" else {"StartAt": "A", "States": {"A": cb("A", None, retry=True)}})
+        w = sim.World(tmpd)
+        w.register(cp.ARN, defn)
+        w.start_execution(cp.ARN, {"a": 1}, name="p1")
+        inst = w.instances["i1"]
+        api = impl.Api(inst.engine, inst.dispatcher, inst.config, kind="aio")
+
+        def settle2():
+            for _ in range(500):
+                opts = w.enabled()
+                if not opts:
+                    pt = [p for p in w.pending_timers() if p[0] <= w.clock.t + 5]
+                    if not pt:
+                        return
+                    w.advance_to(pt[0][0])
+                    continue
+                w.step(opts[0][1], opts[0][2])
+        seen_tokens, log = [], []
+        for rnd in range(3):
+            settle2()
+            reqs = [rq for rq in w.requests if isinstance(rq["body"], dict) and "token" in rq["body"] and rq["body"]["token"] not in seen_tokens]
+            if not reqs:
+                break
+            tok = reqs[-1]["body"]["token"]
+            seen_tokens.append(tok)
+            if shape == "retried" and rnd == 0:
+                stt, body = api.post("SendTaskFailure", {"taskToken": tok, "error": "Again", "cause": "once more"})
+            else:
+                stt, body = api.post("SendTaskSuccess", {"taskToken": tok, "output": json.dumps({"round": rnd})})
+            log.append([rnd, reqs[-1]["body"].get("step"), stt])
+        settle2()
+        w.run(worker=lambda req: None)
+        api.close()
+        ends = [n for n in notes(w) if n["arn"] == parn and n["status"] != "RUNNING"]
+        seq_runs += 1
+        d = {"shape": shape, "definition": defn, "callbacks": log, "distinct_tokens_received": len(set(seen_tokens)), "parent_end": [(n["status"], n["error"]) for n in ends]}
+        want = 2
+        if len(ends) != 1 or ends[0]["status"] != "SUCCEEDED" or len(set(seen_tokens)) != want or len(log) != want:
+            ck.violation("a second callback Task (or the retry of one) did not get a token of its own that completes it: %s" % json.dumps(d)[:1000], {"case": d})
+    ck.add_group("tokens_in_sequence", seq_runs, seq_runs, [])
+
     # ---------------------------------------------------------------- 3. task tokens
     tcases, tdescs = [], []
     listed = {f["id"] for f in ck.known.get("findings", []) if f.get("property") == "C15"}
